@@ -9,6 +9,7 @@ import (
 	"strings"
 
 	"github.com/crate-crypto/go-ipa/bandersnatch/fp"
+	"github.com/crate-crypto/go-ipa/bandersnatch/fr"
 	"github.com/crate-crypto/go-ipa/banderwagon"
 	"github.com/crate-crypto/go-ipa/common"
 )
@@ -132,6 +133,11 @@ func (d *driver) runTranscriptProgram(w emitter, pid int, line []byte) {
 	for run, seq := range [][]top{ops, twin} {
 		rnd := newPrg("transcript", d.seed, pid) // same stream for both runs: equal symbolic args give equal values
 		var t *common.Transcript
+		// scratch variables that live through the whole run: the SAME pointer / slice is handed to the transcript again and again with a
+		// changed value (a running accumulator), as opposed to a fresh variable per call
+		acc := banderwagon.Generator
+		sacc := frFromBig(big.NewInt(41))
+		mbuf := []byte("scratch-buffer-0000")
 		for k, o := range seq {
 			e := ev{"ev": "t", "prog": pid, "run": run, "k": k, "op": o.Op, "label": bytesToInts(labelBytes(o.Label)), "last": k == len(seq)-1, "twin": kind}
 			lb := labelBytes(o.Label)
@@ -141,6 +147,17 @@ func (d *driver) runTranscriptProgram(w emitter, pid int, line []byte) {
 			case "domsep":
 				t.DomainSep(lb)
 			case "msg":
+				if strings.TrimSuffix(o.Arg, "'") == "mbuf" {
+					mbuf[len(mbuf)-1]++ // the same slice, changed in place since the last append
+					if strings.HasSuffix(o.Arg, "'") {
+						mbuf[0]++
+					}
+					before := append([]byte(nil), mbuf...)
+					t.AppendMessage(mbuf, lb)
+					e["msg"] = map[string]interface{}{"lit": bytesToInts(before)}
+					e["arg_unchanged"] = string(before) == string(mbuf)
+					break
+				}
 				arg := o.Arg
 				extra := strings.HasSuffix(arg, "'")
 				arg = strings.TrimSuffix(arg, "'")
@@ -154,6 +171,20 @@ func (d *driver) runTranscriptProgram(w emitter, pid int, line []byte) {
 				e["msg"] = enc
 				e["arg_unchanged"] = string(before) == string(m)
 			case "scalar":
+				if strings.TrimSuffix(o.Arg, "'") == "sacc" {
+					one := fr.One()
+					sacc.Add(&sacc, &one)
+					if strings.HasSuffix(o.Arg, "'") {
+						sacc.Add(&sacc, &one)
+					}
+					sb := sacc
+					t.AppendScalar(&sacc, lb)
+					var rb big.Int
+					sb.ToBigIntRegular(&rb)
+					e["sval"] = limbsOfBig(&rb)
+					e["arg_unchanged"] = sacc == sb
+					break
+				}
 				arg := strings.TrimSuffix(o.Arg, "'")
 				v := scalarClass(arg, rnd)
 				if arg == "5" {
@@ -169,6 +200,19 @@ func (d *driver) runTranscriptProgram(w emitter, pid int, line []byte) {
 				e["sval"] = limbsOfBig(v)
 				e["arg_unchanged"] = s == sb
 			case "point":
+				if strings.TrimSuffix(o.Arg, "'") == "acc" {
+					acc.Double(&acc)
+					if strings.HasSuffix(o.Arg, "'") {
+						acc.Add(&acc, &banderwagon.Generator)
+					}
+					pb := acc
+					t.AppendPoint(&acc, lb)
+					e["coords"] = coords(&pb)
+					x1, y1, z1 := banderwagon.VerifCoords(&acc)
+					x2, y2, z2 := banderwagon.VerifCoords(&pb)
+					e["arg_unchanged"] = x1 == x2 && y1 == y2 && z1 == z2
+					break
+				}
 				arg := strings.TrimSuffix(o.Arg, "'")
 				pt := pointClass(arg, rnd)
 				if strings.HasSuffix(o.Arg, "'") {
